@@ -27,6 +27,9 @@ import (
 // whole run, hence deterministically) when the instrumented tree calls one of them.
 var unlockPoints = os.Getenv("VERIF_UNLOCK_POINTS") == "1"
 
+// SetUnlockPoints switches the Unlock scheduling points on or off (self-tests only; call outside executions).
+func SetUnlockPoints(on bool) { unlockPoints = on }
+
 // Status is the way an execution ended.
 type Status int
 
